@@ -44,14 +44,183 @@ def _uses_strings(terms):
     return False
 
 
-def discharge(pc, goal, want_smt2=False, all_backends=False):
+def _goal_conjuncts(g):
+    if z3.is_and(g):
+        out = []
+        for c in g.children():
+            out.extend(_goal_conjuncts(c))
+        return out
+    return [g]
+
+
+def discharge(pc, goal, want_smt2=False, all_backends=False, scale=1):
+    """Check validity of  And(pc) => goal.  A conjunctive goal is proved conjunct by conjunct (each query
+    is much easier for the string solvers than the conjunction); the first conjunct that is not proved
+    decides the verdict."""
+    parts = _goal_conjuncts(goal)
+    if len(parts) <= 1:
+        return _discharge1(pc, goal, want_smt2, all_backends, scale)
+    t0 = time.time()
+    last = None
+    unknown = None
+    for g in parts:
+        v = _discharge1(pc, g, want_smt2, all_backends, scale)
+        if v.status == 'sat':
+            v.time = time.time() - t0
+            return v
+        if v.status == 'unknown' and unknown is None:
+            unknown = v
+        last = v
+    v = unknown or last
+    v.time = time.time() - t0
+    return v
+
+
+def _has_quantifier(t):
+    seen = set()
+    todo = [t]
+    while todo:
+        x = todo.pop()
+        i = x.get_id()
+        if i in seen:
+            continue
+        seen.add(i)
+        if z3.is_quantifier(x):
+            return True
+        todo.extend(x.children())
+    return False
+
+
+def _abstract_apps(terms):
+    """Replace every ground application of an uninterpreted function by a constant (one per syntactically
+    distinct application, arguments simplified).  Every model of the original is a model of the result
+    (give the constants the values of the applications), so `unsat` carries over: sound for proving."""
+    cache = {}
+    names = {}
+
+    def has_var(t):
+        todo = [t]
+        while todo:
+            x = todo.pop()
+            if z3.is_var(x):
+                return True
+            todo.extend(x.children())
+        return False
+
+    def go(t):
+        k = t.get_id()
+        if k in cache:
+            return cache[k]
+        if z3.is_quantifier(t) or not z3.is_app(t) or t.num_args() == 0:
+            r = t
+        elif has_var(t):
+            r = t
+        else:
+            ch = [go(c) for c in t.children()]
+            d = t.decl()
+            if d.kind() == z3.Z3_OP_UNINTERPRETED:
+                key = z3.simplify(d(*ch)).sexpr()
+                r = names.get(key)
+                if r is None:
+                    r = z3.Const('app!%d' % len(names), t.sort())
+                    names[key] = r
+            else:
+                try:
+                    r = d(*ch)
+                except Exception:
+                    r = t
+        cache[k] = r
+        return r
+
+    return [go(t) for t in terms]
+
+
+def _by_rewriting(pc, goal):
+    """Cheap first attempt: abstract uninterpreted applications, eliminate defined symbols (solve-eqs) and
+    simplify.  Decides the many obligations that are pure rewriting with the equations on the path -- where
+    the string solvers, given the same equations as word equations, do not terminate."""
+    try:
+        terms = _abstract_apps(list(pc) + [z3.Not(goal)])
+        g = z3.Goal()
+        g.add(*terms)
+        res = z3.Then('simplify', 'propagate-values', 'solve-eqs', 'simplify')(g)
+        for sub in res:
+            if len(sub) == 1 and z3.is_false(sub[0]):
+                continue
+            s = z3.Solver()
+            s.set('timeout', 1000)
+            s.add(*[sub[i] for i in range(len(sub))])
+            if s.check() != z3.unsat:
+                return False
+        return True
+    except Exception:
+        return False
+
+
+_SK = [0]
+
+
+def _skolemised(flat, goal):
+    """For a goal  forall j. P(j):  the quantifier-free problem  hyps', Q1(j0), Q2(j0) ... |- P(j0)  with a fresh
+    j0, where every universally quantified hypothesis  forall j. Q(j)  of the same arity is instantiated at
+    j0 (and then dropped).  Proving this proves the original (instances are implied by the hypotheses)."""
+    if not (z3.is_quantifier(goal) and goal.is_forall()):
+        return None
+    n = goal.num_vars()
+    _SK[0] += 1
+    consts = [z3.Const('sk!%d!%d' % (_SK[0], i), goal.var_sort(i)) for i in range(n)]
+    # de Bruijn: variable 0 is the LAST bound variable
+    body = z3.substitute_vars(goal.body(), *reversed(consts))
+    hyps = []
+    for h in flat:
+        if z3.is_quantifier(h):
+            if h.is_forall() and h.num_vars() == n and all(h.var_sort(i) == goal.var_sort(i) for i in range(n)):
+                hyps.extend(_goal_conjuncts(z3.substitute_vars(h.body(), *reversed(consts))))
+            continue
+        if _has_quantifier(h):
+            continue
+        hyps.append(h)
+    return hyps, body
+
+
+def _discharge1(pc, goal, want_smt2=False, all_backends=False, scale=1):
+    """Check validity of  And(pc) => goal.  First from the quantifier-free facts alone (fewer hypotheses:
+    sound; the quantified ones are often irrelevant and only get the string solvers lost), then in full."""
+    flat = []
+    for t in pc:
+        flat.extend(_goal_conjuncts(t))
+    qf = [t for t in flat if not _has_quantifier(t)]
+    if not z3.is_true(goal) and not all_backends and not want_smt2:
+        t0 = time.time()
+        if _by_rewriting(qf, goal):
+            return Verdict('unsat', 'z3-%s(rewriting)' % z3.get_version_string(), time.time() - t0)
+        sk = _skolemised(flat, goal)
+        if sk is not None:
+            ok = True
+            for g in _goal_conjuncts(z3.simplify(sk[1])):
+                if _by_rewriting(sk[0], g):
+                    continue
+                v = _discharge2(sk[0], g, False, False, scale, quick=True)
+                if v.status != 'unsat':
+                    ok = False
+                    break
+            if ok:
+                return Verdict('unsat', 'instantiation', time.time() - t0)
+    if len(qf) < len(flat) and not z3.is_true(goal) and not all_backends:
+        v = _discharge2(qf, goal, want_smt2, False, scale, quick=True)
+        if v.status == 'unsat':
+            return v
+    return _discharge2(flat, goal, want_smt2, all_backends, scale)
+
+
+def _discharge2(pc, goal, want_smt2=False, all_backends=False, scale=1, quick=False):
     """Check validity of  And(pc) => goal."""
     t0 = time.time()
     if z3.is_true(goal):
         return Verdict('unsat', 'trivial', 0.0)
     s = z3.Solver()
-    staged = Z3_FIRST_TIMEOUT_MS < Z3_TIMEOUT_MS and _uses_strings(list(pc) + [goal])
-    s.set('timeout', Z3_FIRST_TIMEOUT_MS if staged else Z3_TIMEOUT_MS)
+    staged = scale == 1 and Z3_FIRST_TIMEOUT_MS < Z3_TIMEOUT_MS and _uses_strings(list(pc) + [goal])
+    s.set('timeout', Z3_FIRST_TIMEOUT_MS if staged else Z3_TIMEOUT_MS * scale)
     for t in pc:
         s.add(t)
     s.add(z3.Not(goal))
@@ -60,11 +229,13 @@ def discharge(pc, goal, want_smt2=False, all_backends=False):
     if r == z3.unknown and staged:
         # what z3 decides on strings it usually decides at once; cvc5 is the stronger string solver
         smt2 = s.to_smt2()
-        v2 = _external(smt2, pc + [goal], only_cvc5=True)
+        v2 = _external(smt2, pc + [goal], only_cvc5=True, quick=quick)
         if v2 is not None and v2.status != 'unknown':
             v2.smt2 = smt2
             v2.time = time.time() - t0
             return v2
+        if quick:
+            return Verdict('unknown', 'quick', time.time() - t0)
         s.set('timeout', Z3_TIMEOUT_MS)
         r = s.check()
     dt = time.time() - t0
@@ -81,14 +252,14 @@ def discharge(pc, goal, want_smt2=False, all_backends=False):
         m = s.model()
         return Verdict('sat', 'z3-%s' % z3.get_version_string(), dt, model=m, smt2=smt2)
     reason = s.reason_unknown()
-    v2 = _external(smt2, pc + [goal], skip_cvc5=staged)
+    v2 = _external(smt2, pc + [goal], scale, skip_cvc5=staged)
     if v2 is not None and v2.status != 'unknown':
         v2.smt2 = smt2
         return v2
     return Verdict('unknown', 'z3+cvc5+z3-4.8', time.time() - t0, smt2=smt2, reason=reason)
 
 
-def _external(smt2, terms, only_cvc5=False, skip_cvc5=False):
+def _external(smt2, terms, scale=1, only_cvc5=False, skip_cvc5=False, quick=False):
     strings = _uses_strings(terms)
     with tempfile.NamedTemporaryFile('w', suffix='.smt2', delete=False) as f:
         text = smt2
@@ -99,14 +270,15 @@ def _external(smt2, terms, only_cvc5=False, skip_cvc5=False):
     try:
         t0 = time.time()
         for backend, cmd in (
-                ('cvc5-1.0.3', ['/usr/bin/cvc5', '--strings-exp', '--tlimit=%d' % (CVC5_TIMEOUT_S * 1000), fn]),
-                ('z3-4.8.12', ['/usr/bin/z3', '-T:%d' % OLDZ3_TIMEOUT_S, fn])):
+                ('cvc5-1.0.3', ['/usr/bin/cvc5', '--strings-exp',
+                                '--tlimit=%d' % (3000 if quick else CVC5_TIMEOUT_S * 1000 * scale), fn]),
+                ('z3-4.8.12', ['/usr/bin/z3', '-T:%d' % (OLDZ3_TIMEOUT_S * scale), fn])):
             if only_cvc5 and not backend.startswith('cvc5'):
                 continue
             if skip_cvc5 and backend.startswith('cvc5'):
                 continue
             try:
-                p = subprocess.run(cmd, capture_output=True, text=True, timeout=max(CVC5_TIMEOUT_S, OLDZ3_TIMEOUT_S) + 5)
+                p = subprocess.run(cmd, capture_output=True, text=True, timeout=max(CVC5_TIMEOUT_S, OLDZ3_TIMEOUT_S) * scale + 5)
             except subprocess.TimeoutExpired:
                 continue
             out = p.stdout.strip().splitlines()
